@@ -79,14 +79,28 @@ def _unwrap_block(n):
     return n
 
 
-def _is_range_len(n):
-    """`0..X.len()` -> X node, else None"""
+def _is_range_len(n, lets=None):
+    """`0..X.len()` -> X node, else None.  Also `0..X.len().min(Y.len())` (what zipping X and Y visits) -> X; a bound named by an
+    immutable `let` is looked through."""
     n = strip(n)
     if n.get("k") == "struct" and n["path"] == "std::ops::Range":
         fs = dict((a, b) for a, b in n["fs"])
         st, en = strip(fs["start"]), strip(fs["end"])
-        if st.get("k") == "lit" and st["v"] == "0" and en.get("k") == "mcall" and en["name"] == "len" and not en["args"]:
+        seen = 0
+        while en is not None and en.get("k") == "local" and lets and en["hid"] in lets and seen < 4:
+            en = strip(lets[en["hid"]])
+            seen += 1
+        if en is None or not (st.get("k") == "lit" and st["v"] == "0"):
+            return None
+        if en.get("k") == "mcall" and en["name"] == "len" and not en["args"]:
             return strip(en["recv"])
+        ops = None
+        if en.get("k") == "mcall" and en["name"] == "min" and len(en["args"]) == 1:
+            ops = [strip(en["recv"]), strip(en["args"][0])]
+        elif en.get("k") == "call" and str(en.get("callee", "")).endswith(("cmp::min", "Ord::min")) and len(en["args"]) == 2:
+            ops = [strip(en["args"][0]), strip(en["args"][1])]
+        if ops and all(o.get("k") == "mcall" and o["name"] == "len" and not o["args"] for o in ops):
+            return strip(ops[0]["recv"])
     return None
 
 
@@ -151,7 +165,7 @@ class Extractor:
             if r[2] != level:
                 raise Unrecognised("traversal of %s at depth %d inside level %d" % (r[1], r[2], level))
             return ("root", r[1], r[2] + 1)
-        x = _is_range_len(n)
+        x = _is_range_len(n, getattr(self, "lets", None))
         if x is not None:
             r = self.place(x)
             if r[2] != level:
@@ -194,8 +208,8 @@ class Extractor:
                 if nm == "sum":
                     res.reduction = "sum"
                 return self.descend(n["recv"], level)
-            if nm == "extend" and len(n["args"]) == 1:
-                return self.descend(n["args"][0], level)
+            if nm in ("extend", "push") and len(n["args"]) == 1:
+                return self.descend(n["args"][0], level)       # the collection receives what the argument traversal yields
             if nm in SRC_METHODS | PASS_METHODS:
                 # a bare traversal with no per-element closure: yields the elements themselves, in order
                 item = self.source(n, level)
@@ -217,6 +231,9 @@ class Extractor:
                 res.levels = level + 1 + extra
                 return self.inner(cl["body"], level + 1 + extra, item)
             raise Unrecognised("unrecognised traversal method `%s`: %s" % (nm, short(pretty(n), 80)))
+        if k == "call" and len(n.get("args") or []) == 1 and str(n.get("callee", "")).startswith(("tensor::Tensor::", "tensor::Data::")) \
+                and str(n["callee"]).rsplit("::", 1)[-1].lower() in ("single", "double", "triple", "quadruple"):
+            return self.descend(n["args"][0], level)           # `Tensor::single(<traversal>)`: the constructor only wraps the data
         if k in ("local", "index"):
             # a root passed whole to extend()/collect: all remaining levels in order
             r = self.place(n)
@@ -239,6 +256,15 @@ class Extractor:
             b = n["b"]
             nodes = list(b["stmts"]) + ([b["tail"]] if b["tail"] is not None else [])
             cands = []
+            self.lets = getattr(self, "lets", {})
+            for s in nodes:
+                if s.get("k") == "let" and s["pat"].get("k") == "bind" and s.get("init") is not None and "Mut)" not in str(s["pat"].get("mode")):
+                    self.lets[s["pat"]["hid"]] = s["init"]
+                    i0 = strip(s["init"])
+                    while i0 is not None and i0.get("k") in ("ref",) and not i0.get("mut"):
+                        i0 = strip(i0["x"])
+                    if i0 is not None and i0.get("k") == "local" and i0["hid"] in self.res.env and self.res.env[i0["hid"]][0] == "root":
+                        self.res.env[s["pat"]["hid"]] = self.res.env[i0["hid"]]        # `let row = t;`: another name for the same sub-tensor
             for s in nodes:
                 tgt = s["init"] if s.get("k") == "let" else s
                 if tgt is None:
@@ -264,11 +290,11 @@ class Extractor:
                     return True
                 if k == "for":
                     it = strip(x["iter"])
-                    r = _is_range_len(it)
+                    r = _is_range_len(it, getattr(self, "lets", None))
                     self.place(r if r is not None else it)
                     return True
                 if k == "mcall" and x["name"] in ("for_each", "map"):
-                    r = _is_range_len(x["recv"])
+                    r = _is_range_len(x["recv"], getattr(self, "lets", None))
                     if r is not None:
                         self.place(r)
                         return True
